@@ -137,6 +137,12 @@ func (it *Interp) evalBuiltin(fr *Frame, name string, call *ast.CallExpr) Value 
 			return Opaque{Why: "append"}
 		}
 		if call.Ellipsis.IsValid() {
+			// append(xs, ys...) with both slices of known elements
+			if more, ok := it.eval(fr, call.Args[len(call.Args)-1]).(*Slice); ok && !more.Homog && !sl.Homog && len(call.Args) == 2 {
+				ns := &Slice{Elems: append(append([]*Cell{}, sl.Elems...), more.Elems...)}
+				ns.Len = lin.C(int64(len(ns.Elems)))
+				return ns
+			}
 			return Opaque{Why: "append..."}
 		}
 		if sl.Homog {
